@@ -63,7 +63,8 @@ def ofImage (img : Img) (maxBuf : Nat) : Option PState :=
                        difatSectorIds := r.difatSectorIds, difat := r.difat, fat := r.fat,
                        free := indicesOf r.fat FREE, dirStart := r.dirStart, dirLen := r.dir.size,
                        miniFat := r.miniFat, miniFatStart := r.miniFatStart, freeMini := indicesOf r.miniFat FREE,
-                       rootStart := root.startSector, rootLen := root.streamLen, starts := starts }
+                       rootStart := root.startSector, rootLen := root.streamLen, starts := starts,
+                       txSig := (Raw.leN img 52 4).getD 0 }
         some { s := { base := { rootMeta := metaOf root, top := top }, handles := [], maxBuf := maxBuf }, p := p }
   | _ => none
 
